@@ -44,8 +44,9 @@ class Layout:
     def __init__(self):
         self.items = []   # dicts: path, off, len, kind ('leaf'|'strlen'|'listlen'), field kind, value
 
-    def add(self, path, off, ln, kind, fkind, value=None):
-        self.items.append({'path': path, 'off': off, 'len': ln, 'kind': kind, 'fkind': fkind, 'value': value})
+    def add(self, path, off, ln, kind, fkind, value=None, owner=None, fname=None):
+        self.items.append({'path': path, 'off': off, 'len': ln, 'kind': kind, 'fkind': fkind, 'value': value,
+                           'owner': owner, 'fname': fname})
 
     def locate(self, off):
         for it in self.items:
@@ -68,7 +69,7 @@ class Encoder:
         decoded = self.enc_packet(p, msg, out, lay, p.name)
         return bytes(out), lay, decoded
 
-    def enc_scalar(self, f, v, out, lay, path):
+    def enc_scalar(self, f, v, out, lay, path, owner=None):
         """f effective field of kind num/char/fix/dyn; returns decoded logical value."""
         le = self.cfg['le']
         k = f.kind
@@ -76,11 +77,11 @@ class Encoder:
         if k == 'num':
             w = WIDTH[f.ntype]
             out += enc_int(v, w, le)
-            lay.add(path, off, w, 'leaf', 'num:' + f.ntype, v)
+            lay.add(path, off, w, 'leaf', 'num:' + f.ntype, v, owner, f.name)
             return v
         if k == 'char':
             out += bytes([v & 0xff])
-            lay.add(path, off, 1, 'leaf', 'char', v)
+            lay.add(path, off, 1, 'leaf', 'char', v, owner, f.name)
             return v
         if k == 'fix':
             side, pb = self.proto.eff_pad(f)
@@ -89,36 +90,36 @@ class Encoder:
                 raise ValueError('fixed string too long for %s' % path)
             pad = pb * (f.n - len(b))
             out += (pad + b) if side == 'left' else (b + pad)
-            lay.add(path, off, f.n, 'leaf', 'fix', v)
+            lay.add(path, off, f.n, 'leaf', 'fix', v, owner, f.name)
             return v
         if k == 'dyn':
             b = v.encode('utf-8')
             w = WIDTH[self.cfg['sp']]
             out += enc_int(len(b), w, le)
-            lay.add(path, off, w, 'strlen', 'dyn', len(b))
+            lay.add(path, off, w, 'strlen', 'dyn', len(b), owner, f.name)
             out += b
-            lay.add(path, off + w, len(b), 'leaf', 'dyn', v)
+            lay.add(path, off + w, len(b), 'leaf', 'dyn', v, owner, f.name)
             return v
         raise ValueError(k)
 
-    def enc_one(self, p, f, v, out, lay, path):
+    def enc_one(self, p, f, v, out, lay, path, owner=None):
         e = self.proto.eff(f)
         k = e.kind
         if k in ('num', 'char', 'fix', 'dyn'):
-            return self.enc_scalar(e, v, out, lay, path)
+            return self.enc_scalar(e, v, out, lay, path, owner)
         if k == 'ref':
             return self.enc_packet(self.proto.packet(f.packet), v, out, lay, path)
         if k == 'inline':
-            return self.enc_fields(e.fields, v, out, lay, path, None)
+            return self.enc_fields(e.fields, v, out, lay, path, None, owner=f.name)
         if k == 'match':
             pname, body = v
             return (pname, self.enc_packet(self.proto.packet(pname), body, out, lay, path + '<' + pname + '>'))
         raise ValueError(k)
 
     def enc_packet(self, p, msg, out, lay, path):
-        return self.enc_fields(p.fields, msg, out, lay, path, p)
+        return self.enc_fields(p.fields, msg, out, lay, path, p, owner=p.name)
 
-    def enc_fields(self, fields, msg, out, lay, path, p):
+    def enc_fields(self, fields, msg, out, lay, path, p, owner=None):
         le = self.cfg['le']
         decoded = {}
         pending_len = {}   # target name -> (lenfield, offset, width)
@@ -139,27 +140,27 @@ class Encoder:
                     val = algo(f.algo, out, w)
                 off = len(out)
                 out += enc_int(val, w, le)
-                lay.add(fp, off, w, 'leaf', 'cksum:' + e.ntype, val)
+                lay.add(fp, off, w, 'leaf', 'cksum:' + e.ntype, val, owner, f.name)
                 decoded[f.name] = val & ((1 << (8 * w)) - 1)
                 continue
             start = len(out)
             if f.repeat:
                 w = WIDTH[self.cfg['ap']]
                 out += enc_int(len(v), w, le)
-                lay.add(fp, start, w, 'listlen', e.kind, len(v))
+                lay.add(fp, start, w, 'listlen', e.kind, len(v), owner, f.name)
                 dv = []
                 for i, x in enumerate(v):
-                    dv.append(self.enc_one(p, f, x, out, lay, '%s[%d]' % (fp, i)))
+                    dv.append(self.enc_one(p, f, x, out, lay, '%s[%d]' % (fp, i), owner))
                 decoded[f.name] = dv
             else:
-                decoded[f.name] = self.enc_one(p, f, v, out, lay, fp)
+                decoded[f.name] = self.enc_one(p, f, v, out, lay, fp, owner)
             if f.name in pending_len:
                 lf, off, w = pending_len.pop(f.name)
                 n = len(out) - start
                 if n >= 1 << (8 * w):
                     raise LenOverflow('%s: target of %d bytes does not fit %d-byte length field' % (path, n, w))
                 out[off:off + w] = enc_int(n, w, le)
-                lay.add(path + '.' + lf.name, off, w, 'leaf', 'len:' + self.proto.eff(lf).ntype, n)
+                lay.add(path + '.' + lf.name, off, w, 'leaf', 'len:' + self.proto.eff(lf).ntype, n, owner, lf.name)
                 decoded[lf.name] = n & ((1 << (8 * w)) - 1)
         # keep declaration order in decoded
         return {f.name: decoded[f.name] for f in fields}
